@@ -701,6 +701,26 @@ def u_(n):
     return ast.unparse(n)
 
 
+def r06f(ctx, classes):
+    ctx.rule("R06f", "values of lazily evaluated classes are memoised only through lazy_property (the one mechanism __setattr__ / _clear_cache know about): "
+             "no functools.cached_property / lru_cache / cache inside such a class", expected=9, kind="N")
+    FOREIGN = ("cached_property", "lru_cache", "functools.cache", "cache")
+    for ci in classes:
+        bad = []
+        for st in ci.node.body:
+            if isinstance(st, ast.FunctionDef):
+                for d in st.decorator_list:
+                    t = ast.unparse(d.func) if isinstance(d, ast.Call) else ast.unparse(d)
+                    if t.split(".")[-1] in ("cached_property", "lru_cache", "cache") and t.split(".")[-1] != "lazy_property":
+                        bad.append((st, t))
+        if bad:
+            for st, t in bad:
+                ctx.bad("R06f", f"{ci.qual}.{st.name}", "memoised through lazy_property only", f"@{t}: a cache that assigning an attribute never clears",
+                        key_detail="foreign cache", loc=ctx.loc(ci.module, st))
+        else:
+            ctx.ok("R06f", ci.qual, "memoised through lazy_property only")
+
+
 def run(ctx):
     classes = lazy_classes(ctx.repo)
     if ctx.tier == "quick":
@@ -710,10 +730,13 @@ def run(ctx):
     ctx.guard(r06c)
     ctx.guard(r06d)
     ctx.guard(r06e, classes)
+    ctx.guard(r06f, classes)
 
 
 SELFTEST = {
     "faults": [
+        {"name": "a value cached with functools.cached_property", "file": "pyrex/ray_tracing.py", "old": "    @lazy_property\n    def z_turn(self):", "new": "    @functools.cached_property\n    def z_turn(self):",
+         "rule": "R06f"},
         {"name": "skip the clear when the same object is re-assigned", "file": "pyrex/internal_functions.py",
          "old": "        if \"_static_attrs\" in self.__dict__ and name in self._static_attrs:\n            self._clear_cache()",
          "new": "        if \"_static_attrs\" in self.__dict__ and name in self._static_attrs:\n            if self.__dict__.get(name, None) is not value:\n                self._clear_cache()",
